@@ -163,4 +163,4 @@ def run(tier, seed, t0):
                   assumptions=["mod_n_inv is x^(N-2) by square-and-multiply over mod_n_mul (exponent tracking is C13's obligation); here it is an arbitrary function in the data-flow harness",
                                "SM3 is an arbitrary function in the framing harnesses (C01)", "Annex values are not recomputed by the solver (concrete pairing-free check lives in the replay reference)"],
                   explanation="mod_n_from_hash decided for ALL 320-bit Ha over integers from the MIR (u256 arithmetic by its L1 statements); H1/H2 byte framing and the extraction data-flow decided by Kani on the real code with logging stubs.",
-                  rule="10 engine-M obligations (hash-to-range, mod-N add/sub/Barrett multiplication, L1 limb arithmetic) + 10 Kani harnesses; all distinct")
+                  replayer=__import__("c13_l4").replayer, rule="10 engine-M obligations (hash-to-range, mod-N add/sub/Barrett multiplication, L1 limb arithmetic) + 10 Kani harnesses; all distinct")
